@@ -202,6 +202,24 @@ package node
 //@   requires conf != nil && validator != nil && validator.Key != nil && peers != nil && genesisPeers != nil && proxy != nil
 //@   ensures[standing] ret0 != nil && ret0.standing()
 
+// The answers to this node's own requests are remote-controlled as well: pulling (inserting the events of a
+// SyncResponse) and pushing (computing the difference from the Known map of the response) cannot panic (C08).
+//@ func (n *Node) pull(peer *peers.Peer) (otherKnownEvents map[uint32]int, err error)
+//@   safety on
+//@   requires n.standing() && peer != nil && n.trans != nil
+//@   ensures[ready] n.core == old(n.core) && n.core.hg == old(n.core.hg) && n.core.hg.ConsensusReady()
+
+//@ func (n *Node) push(peer *peers.Peer, knownEvents map[uint32]int) error
+//@   safety on
+//@   requires n.standing() && peer != nil && n.trans != nil && n.conf.SyncLimit >= 0
+
+//@ func (c *core) toWire(events []*hg.Event) ([]hg.WireEvent, error)
+//@   safety on
+//@   requires c != nil && (forall k int :: 0 <= k && k < len(events) ==> events[k] != nil)
+//@   modifies nothing
+//@   ensures[all] ret1 == nil && len(ret0) == len(events)
+//@   loop 1 invariant[len] len(wireEvents) == len(events)
+
 // The handlers of the mutating requests: no panic for any request content (C08), under the node's standing
 // invariants (core, hashgraph, validator key, pools and heads exist).
 //@ func (n *Node) sync(fromID uint32, events []hg.WireEvent) error
